@@ -459,7 +459,7 @@ var specQueue = pbt.Register(&pbt.Spec[Case]{
 	Gen: func(t *rapid.T) Case {
 		return Case{Kind: rapid.SampledFrom(queueKinds).Draw(t, "kind"), Quiet: rapid.IntRange(0, 7).Draw(t, "quiet") == 0, Ops: genOps(t)}
 	},
-	Run: Run, Quick: 30000, Thorough: 200000,
+	Run: Run, Quick: 30000, Thorough: 200000, Replicas: 4, ReplicaEvery: 16,
 })
 
 var specStack = pbt.Register(&pbt.Spec[Case]{
@@ -467,7 +467,7 @@ var specStack = pbt.Register(&pbt.Spec[Case]{
 	Gen: func(t *rapid.T) Case {
 		return Case{Kind: rapid.SampledFrom(stackKinds).Draw(t, "kind"), Quiet: rapid.IntRange(0, 7).Draw(t, "quiet") == 0, Ops: genOps(t)}
 	},
-	Run: Run, Quick: 30000, Thorough: 200000,
+	Run: Run, Quick: 30000, Thorough: 200000, Replicas: 4, ReplicaEvery: 16,
 })
 
 // enumSeqs yields every sequence over {Insert, Remove, Peek} of length 0..maxLen for every given kind.
